@@ -177,7 +177,21 @@ def function_source_ast(func):
     return ast.parse(src).body[0]
 
 
-def discover_guards(func):
+# helper methods the contract stub answers by their contract (their bodies are not run inside a caller)
+NO_FOLLOW = {'s_covd', 'st_covd', 's_div', 's_curl', 'Lie_beta', 's_to_st', 'levicivita_down3', 'levicivita_up3', 'levicivita_down4', 'levicivita_up4'}
+
+
+def _no_follow():
+    """+ every method the contract stub defines itself"""
+    try:
+        from . import contracts as _ct
+        extra = {k for k in vars(_ct.Stub) if not k.startswith('__')}
+    except Exception:
+        extra = set()
+    return NO_FOLLOW | extra | {'myprint', 'cleanup_cache'}
+
+
+def discover_guards(func, _seen=None):
     """control inputs of a function: cache-membership tests and option reads.
 
     Returns dict(keys=set of data keys tested with in/not in self.data,
@@ -239,4 +253,28 @@ def discover_guards(func):
     for node in ast.walk(tree):
         if isinstance(node, (ast.If, ast.While, ast.IfExp)):
             visit_test(node.test)
+    # a method called directly (self.name(...), not self['name']) runs its real body inside the caller: its control inputs are
+    # control inputs of the caller as well (transitively)
+    if _seen is None:
+        _seen = {getattr(func, '__name__', '')}
+    cls = None
+    try:
+        import sys as _sys
+        cls = getattr(_sys.modules.get(func.__module__), func.__qualname__.split('.')[0], None) if '.' in getattr(func, '__qualname__', '') else None
+    except Exception:
+        cls = None
+    if cls is not None:
+        for node in ast.walk(tree):
+            if (isinstance(node, ast.Call) and isinstance(node.func, ast.Attribute) and isinstance(node.func.value, ast.Name)
+                    and node.func.value.id == 'self' and node.func.attr not in _seen and node.func.attr not in _no_follow()):
+                callee = cls.__dict__.get(node.func.attr)
+                if isinstance(callee, types.FunctionType):
+                    _seen.add(node.func.attr)
+                    try:
+                        sub = discover_guards(callee, _seen)
+                    except Exception:
+                        continue
+                    keys |= sub['keys']
+                    opts |= sub['opts']
+                    unknown += [f'{node.func.attr}: {u}' for u in sub['unknown']]
     return dict(keys=keys, opts=opts, unknown=unknown)
